@@ -70,7 +70,7 @@ def check_program(tools, work, i, rec):
     bad = None
     if rc == 124:
         bad = ("pack-hang", "gensquashfs does not terminate on the program")
-    elif rc < 0 or rc in (134, 139) or b"AddressSanitizer" in e:
+    elif rc < 0 or rc in (134, 139) or b"ERROR: AddressSanitizer" in e:
         bad = ("pack-crash", "gensquashfs crashes: %s" % e.decode(errors="replace")[-200:])
     elif m["outcome"] == "refused":
         if rc == 0:
@@ -442,7 +442,7 @@ def run(tier):
             args += ["-A", xf]
         rc, o, e = sh(args + [out], timeout=300)
         full = e.decode(errors="replace")
-        res = {"rc": rc, "stderr": (full[:400] if "AddressSanitizer" in full else full[-300:]), "diffs": [], "reader": []}
+        res = {"rc": rc, "stderr": (full[:400] if "ERROR: AddressSanitizer" in full else full[-300:]), "diffs": [], "reader": []}
         if rc == 0:
             try:
                 img = sqfsimg.load(out)
@@ -496,7 +496,7 @@ def run(tier):
             label = "%s -c %s %s" % (os.path.basename(s.dir), comp, " ".join(base + opts))
             if res["rc"] == 124:
                 rep.violation("pack-hang", "gensquashfs does not terminate: %s" % label)
-            elif res["rc"] < 0 or res["rc"] in (134, 139) or "AddressSanitizer" in res["stderr"]:
+            elif res["rc"] < 0 or res["rc"] in (134, 139) or "ERROR: AddressSanitizer" in res["stderr"]:
                 rep.violation("pack-memory-error", "memory error / crash while packing %s: %s" % (label, res["stderr"][-200:]))
             elif res["rc"] != 0:
                 rep.violation("pack-refuses-valid", "gensquashfs refuses a representable input (%s): %s" % (label, res["stderr"][-200:]))
